@@ -161,6 +161,10 @@ def specs(tier, seed):
         for blocked in (False, True):
             for fobj in ('pipe', 'minimal'):
                 add(kind='vbs', lens=lens, blocked=blocked, coding='pos', fobj=fobj)
+    for fobj in ('smallbuf', 'zip', 'mmap'):
+        for blocked in (False, True):
+            add(kind='vbs', lens=[1004, 4], blocked=blocked, coding='pos', fobj=fobj)
+            add(kind='vbs', lens=[600], blocked=blocked, coding='pos', fobj=fobj)
     add(kind='vbs', lens=[1008, 1012], blocked=True, coding='pos', fobj='file')
     add(kind='vbs', lens=[5, 600], blocked=False, coding='pos', fobj='file')
     for fobj in ('pipe', 'minimal', 'file'):
